@@ -31,6 +31,20 @@ type reqSpec struct {
 	Script string `json:"script"` // reply | stall | late | twice | unknown-id | close | reset
 	Token  string `json:"token"`
 	ID     uint64 `json:"id"`
+	// HTTP pairs: body lengths (0 = just the marker). Longer bodies repeat the request's own marker, so that a body
+	// (or a part of one) that belongs to another exchange shows a foreign marker.
+	ReqLen  int `json:"req_len,omitempty"`
+	RespLen int `json:"resp_len,omitempty"`
+}
+
+// padded returns base followed by the token marker repeated up to n bytes.
+func padded(tok, sfx string, n int) []byte {
+	b := []byte(mesh.Wrap(tok) + sfx)
+	m := []byte(mesh.Wrap(tok))
+	for len(b)+len(m) <= n {
+		b = append(b, m...)
+	}
+	return b
 }
 
 type batch struct {
@@ -69,8 +83,15 @@ func genBatch(rt *rapid.T, pairs []string) batch {
 		c := rapid.IntRange(0, b.Conns-1).Draw(rt, "conn")
 		perConn[c]++
 		// the same small ids are used on every downstream connection on purpose
-		b.Reqs = append(b.Reqs, reqSpec{Conn: c, Script: rapid.SampledFrom(scripts).Draw(rt, "script"),
-			Token: fmt.Sprintf("t%d-%d-%s", caseNo, i, rapid.StringMatching("[a-z]{3}").Draw(rt, "tokSfx")), ID: perConn[c]})
+		rs := reqSpec{Conn: c, Script: rapid.SampledFrom(scripts).Draw(rt, "script"),
+			Token: fmt.Sprintf("t%d-%d-%s", caseNo, i, rapid.StringMatching("[a-z]{3}").Draw(rt, "tokSfx")), ID: perConn[c]}
+		if !isX {
+			// sizes around the HTTP/2 frame shapes: one DATA frame carrying END_STREAM (x/net sends that up to 4 KiB),
+			// one full read buffer, several frames
+			size := rapid.OneOf(rapid.Just(0), rapid.Just(0), rapid.IntRange(200, 1023), rapid.IntRange(1024, 4096), rapid.IntRange(1024, 4096), rapid.IntRange(4097, 40000))
+			rs.ReqLen, rs.RespLen = size.Draw(rt, "reqLen"), size.Draw(rt, "respLen")
+		}
+		b.Reqs = append(b.Reqs, rs)
 	}
 	b.Perm = rapid.Permutation(seq(k)).Draw(rt, "perm")
 	for i := 0; i < k; i++ {
@@ -122,17 +143,32 @@ func runBatch(rt *rapid.T, b batch) {
 		o.release[r.Token] = make(chan struct{})
 		o.specs[r.Token] = r
 	}
+	var violations []string
+	var vmu sync.Mutex
+	bad := func(sig, format string, a ...interface{}) {
+		vmu.Lock()
+		violations = append(violations, sig+" :: "+fmt.Sprintf(format, a...))
+		vmu.Unlock()
+	}
 	script := func(r *mesh.Req) mesh.Action {
 		sp, ok := o.specs[r.Token]
 		if !ok {
 			return mesh.Action{Kind: "reply", Status: 200}
+		}
+		if !isX {
+			for _, tk := range mesh.TokensIn(r.Body) {
+				if tk != r.Token {
+					bad(b.Pair+"/request-header-body-mix", "the upstream received request %s (header and path) with a body carrying the marker of request %s (body length %d, sent %d)", r.Token, tk, len(r.Body), len(padded(r.Token, "-req", sp.ReqLen)))
+					break
+				}
+			}
 		}
 		o.mu.Lock()
 		o.arrived[r.Token] = true
 		o.mu.Unlock()
 		o.arriveCh <- struct{}{}
 		a := mesh.Action{Hold: o.release[r.Token], Status: 200}
-		body := []byte(mesh.Wrap(r.Token) + "-resp")
+		body := padded(r.Token, "-resp", sp.RespLen)
 		a.Body = body
 		a.Header = [][2]string{{mesh.TokenHeader, r.Token}}
 		if isX {
@@ -189,13 +225,6 @@ func runBatch(rt *rapid.T, b batch) {
 		}
 	}()
 
-	var violations []string
-	var vmu sync.Mutex
-	bad := func(sig, format string, a ...interface{}) {
-		vmu.Lock()
-		violations = append(violations, sig+" :: "+fmt.Sprintf(format, a...))
-		vmu.Unlock()
-	}
 	byConn := map[int][]reqSpec{}
 	for _, r := range b.Reqs {
 		byConn[r.Conn] = append(byConn[r.Conn], r)
@@ -296,7 +325,7 @@ func runBatch(rt *rapid.T, b batch) {
 					}()
 				}
 				for _, r := range reqs {
-					body := []byte(mesh.Wrap(r.Token) + "-req")
+					body := padded(r.Token, "-req", r.ReqLen)
 					if err := cl.Send(mesh.RawRequest("POST", "/c02/"+r.Token, "c02.test", [][2]string{{mesh.TokenHeader, r.Token}}, body, false)); err != nil {
 						return
 					}
@@ -339,7 +368,7 @@ func runBatch(rt *rapid.T, b batch) {
 					defer wg.Done()
 					rctx, rcancel := context.WithTimeout(ctx, clientDeadline)
 					defer rcancel()
-					req, _ := http.NewRequestWithContext(rctx, "POST", "http://"+c.Addr+"/c02/"+r.Token, bytes.NewReader([]byte(mesh.Wrap(r.Token)+"-req")))
+					req, _ := http.NewRequestWithContext(rctx, "POST", "http://"+c.Addr+"/c02/"+r.Token, bytes.NewReader(padded(r.Token, "-req", r.ReqLen)))
 					req.Header.Set(mesh.TokenHeader, r.Token)
 					resp, err := client.Do(req)
 					if err != nil {
